@@ -21,6 +21,17 @@ META = {
     ),
 }
 
+META["C02"] = dict(
+    level="proof",
+    technique="function against spec function: AST of each real _impedance vs its own _equation string, equality of complex rational functions modulo uninterpreted transcendental applications (congruence validated by z3); TLM _impedance vs _sympy over all 243 flag configurations; numeric comparison as labelled bounded stand-in and replay",
+    level_text="For each of the 22 registered element classes the return expression of the real _impedance equals sympify(_equation) for ALL parameter values strictly inside the registered limit box and all f>0, as an identity of rational functions over uninterpreted pow/tanh/cosh/sinh; the general transmission line's numeric and symbolic case analyses agree for every open/short/finite configuration. Whole-circuit composition, sympy.limit and latex are bounded only.",
+    level_note="real arithmetic; principal-branch facts z^-a=1/z^a, sqrt=pow 1/2, coth=1/tanh, integer powers; equalities hold where no denominator vanishes; sympy.sympify gives _equation its meaning; limits at f=0/inf (sympy.limit) and to_sympy composition are covered by the bounded layer only",
+    explanation="Obligations: per element class signature=parameters, free symbols of the equation, impedance==equation (z3 QF_NRA validity on rational triples), vacuity canary (2*equation must not be provable); TLM: 243 flag configurations, same refusal or equal expression. Bounded: numeric implementation vs independently evaluated equation over the limit box.",
+    trusted_base=["sympy.sympify as the meaning of _equation", "transcendental functions uninterpreted with four principal-branch rewrite facts"],
+    assumptions=COMMON_ASSUME + ["parameters strictly above their lower limit and at most their upper limit; f > 0"],
+    abstracted=[".astype(...) is the identity", "type annotations", "docstrings"],
+)
+
 NOT_BUILT = "check not built yet in this session (planned, see DESIGN.md section 3)"
 NOT_APPLICABLE = {
     "C10": "statistical calibration over an RNG distribution and heuristic optimisers: no pre/postcondition within reach of a deductive verifier implies it (DESIGN.md C10); sampling would be a different technique family",
@@ -30,4 +41,4 @@ for _p in ["C%02d" % i for i in range(1, 21)]:
     if _p not in META and _p not in NOT_APPLICABLE:
         NOT_APPLICABLE[_p] = NOT_BUILT
 
-FIX_COMMITS = ["0098309"]
+FIX_COMMITS = ["0098309", "82df5c9", "ded46ec"]
